@@ -249,6 +249,9 @@ pub struct World<'a> {
     /// expected remaining selection (ids) of the solicited series in progress
     pub series_expect: Option<Vec<u64>>,
     pub last_unsol_seq: Option<u8>,
+    /// a DISABLE_UNSOLICITED was sent: it cancels the unsolicited series outstanding when it is processed,
+    /// i.e. right after its own response has been built
+    pub cancel_unsol_after_next_sol: bool,
 }
 
 impl<'a> World<'a> {
@@ -964,6 +967,10 @@ impl<'a> World<'a> {
                             f(self);
                         }
                         sols.push(self.on_sol(t_ms, bytes, what, true));
+                        if self.cancel_unsol_after_next_sol {
+                            self.cancel_unsol_after_next_sol = false;
+                            self.out_unsol = None;
+                        }
                     }
                 }
                 It::F(Rx::Garbage { why, bytes, .. }) => {
@@ -979,6 +986,7 @@ impl<'a> World<'a> {
         if let Some(f) = pre_sol.take() {
             f(self);
         }
+        self.cancel_unsol_after_next_sol = false;
         sols
     }
 
@@ -1728,8 +1736,8 @@ impl<'a> World<'a> {
                 let mut pre = |w: &mut Self| {
                     w.enabled = [false; 3];
                 };
+                self.cancel_unsol_after_next_sol = true;
                 let _ = self.process_all(rx, None, "disable-unsol", Some(&mut pre));
-                self.out_unsol = None;
                 out::count("disable_during_unsol_wait", 1);
             }
             Act::ReconnectClose | Act::ReconnectPreempt => {
@@ -1806,6 +1814,7 @@ pub async fn scenario(a: &ShardArgs, check: &'static str, profile: &'static str,
         app_iin: (false, false, false, false),
         series_expect: None,
         last_unsol_seq: None,
+        cancel_unsol_after_next_sol: false,
     };
     w.seq = w.r.below(16) as u8;
     let rx = w.idle_collect().await;
@@ -1880,11 +1889,8 @@ pub async fn scenario(a: &ShardArgs, check: &'static str, profile: &'static str,
                         }
                     }
                 };
+                w.cancel_unsol_after_next_sol = !enable;
                 let _ = w.process_all(rx, None, "enable-disable", Some(&mut pre));
-                if !enable {
-                    // DISABLE_UNSOLICITED cancels an unsolicited series in progress (after its own response)
-                    w.out_unsol = None;
-                }
             }
             3 => w.do_reconnect(true).await,
             4 => w.do_reconnect(false).await,
